@@ -134,6 +134,15 @@ func refusedWriteCase(r *Recorder, kk bool, cut int) {
 func TestC08(t *testing.T) {
 	r := NewRecorder(t, "C08")
 	defer r.Close(t)
+	// a record whose transport write is refused or cut short, then the application's retry: both ends
+	// must stay in step (the nonces spent on the record are spent on both sides or on neither)
+	for _, l := range []int{1, 300} {
+		for _, cut := range []int{0, 1, 17, 18, 19, 18 + l + 15} {
+			for _, mode := range []string{"flush", "rewrite"} {
+				writeRetryCase(r, "C08", l, cut, mode)
+			}
+		}
+	}
 	rng := newRand(8)
 	for _, kk := range []bool{false, true} {
 		for _, cut := range []int{0, 5, 17, 18, 30, 73} {
